@@ -29,7 +29,7 @@ var (
 	pats   = []string{"*", "a*", "?", "a?", "[ab]", "k/*", "zz", ""}
 	keysE  = []string{"a", "b", "ab", "k/1", ""}
 	patsE  = []string{"*", "a*", "a?", "[ab]", "k/*", "zz", "", "??"}
-	exps   = []string{"", "1h", "-1h", "1h", "-1h", "epoch", "zero"} // epoch / zero: time.Unix(0,0) / time.Time{} as ExpiresAt
+	exps   = []string{"", "1h", "-1h", "1h", "-1h", "epoch", "zero", "y9999", "y2400"} // epoch / zero: time.Unix(0,0) / time.Time{} as ExpiresAt
 	vers   = []string{"cur", "cur", "cur", "old", "unk", "empty"}
 	inmemB *kvx.Backend
 	redisB *kvx.Backend
